@@ -63,7 +63,7 @@ def run_correspondence(ck, tab, T, per_class, depth, label="Cases_C01"):
         chunk = usable[i:i + shard]
         text = HEADER + "Definition cases : list gcase := %s.\n" % coq_list(
             ["\n " + case_to_coq(c["tree"], c["tag"], r) for c, r in chunk]) + \
-            "Eval vm_compute in (mismatches Gen_Bindings.T 40 0 cases).\n"
+            "Eval vm_compute in (mismatches Gen_Bindings.T 40 0 cases).\nEval vm_compute in (typed_count Gen_Bindings.T 40 cases).\n"
         files.append((i, chunk, text))
     from concurrent.futures import ThreadPoolExecutor
     with ThreadPoolExecutor(max_workers=8) as ex:
@@ -79,8 +79,135 @@ def run_correspondence(ck, tab, T, per_class, depth, label="Cases_C01"):
             which = [n for b, n in ((1, "constructor"), (2, "export"), (4, "build")) if bits & b]
             ck.disagree("Gds." + "+".join(which), case, "model differs (bits %d)" % bits,
                         {k: r.get(k) for k in ("obj", "xml", "back") if k in r})
+        if len(results) > 1:
+            mt = re.search(r"(\d+)", results[1])
+            ck.extra["cases_in_theorem_domain_typed"] = ck.extra.get("cases_in_theorem_domain_typed", 0) + (int(mt.group(1)) if mt else 0)
     ck.extra["correspondence_cases"] = len(usable)
     return usable
+
+
+def run_documents(ck, T, n, depth, prop="C01"):
+    """whole documents through the real NeuroMLWriter.write / NeuroMLLoader.load, three cycles"""
+    gen = gdsgen.Gen(T, ck.rng)
+    order = {c: T.field_order(c) for c in T.order}
+    cases = [{"tag": "neuroml", "tree": gen.tree("NeuroMLDocument", depth, full=(j == 0))} for j in range(n)]
+    res = ck.impl("gds_impl.py", {"mode": "document", "order": order, "cases": cases}, timeout=1200)["results"]
+    for case, r in zip(cases, res):
+        ck.tally("document")
+        size = len(json.dumps(r.get("obj", "")))
+        ck.count(1, nontrivial_key=json.dumps(r.get("obj"), sort_keys=True) if size > 400 else None,
+                 sample={"document_xml": r.get("text0", "")[:400]} if len(ck.samples) < 4 else None)
+        if "err" in r:
+            ck.witness(prop + ":document:write-or-load-raises", "writer/loader raised on a generated document: " + r["err"][:300],
+                       input=case, observed=r["err"])
+            continue
+        if prop == "C01":
+            if r["back0"] != r["obj"]:
+                diff = [(a[0]) for a, b in zip(r["obj"]["fields"], r["back0"]["fields"]) if a != b][:5]
+                ck.witness("C01:document:%s" % ",".join(diff), "NeuroMLWriter.write -> NeuroMLLoader.load changes the document in " + ",".join(diff),
+                           input=case, expected=r["obj"], observed=r["back0"])
+        else:
+            if r["back1"] != r["back0"] or r["back2"] != r["back1"]:
+                ck.witness("C04:document:not-a-fixed-point", "loading a written loaded document gives a different document", input=case)
+            if not r["bytes_stable"]:
+                ck.witness("C04:document:bytes-not-stable", "the bytes written in the 2nd and 3rd cycle differ", input=case)
+            if r.get("second_write_differs"):
+                ck.witness("C04:document:second-write-differs", "writing the same document twice gives different bytes", input=case)
+            if r.get("write_modified_document"):
+                ck.witness("C04:document:write-modifies", "writing modified the in-memory document", input=case)
+    return res
+
+
+INST = HEADER.replace("Model.GdsExec", "Model.GdsExec Model.GdsWf") + """
+(* the table set regenerated from nml.py on this run is well-formed for the round-trip theorem *)
+Lemma wf_ok : rt_wf Gen_Bindings.T = true.
+Proof. vm_compute. reflexivity. Qed.
+
+(* the float-free constructor defaults used by build agree with the general constructor model on every class *)
+Lemma ctor_defaults_ok :
+  forallb (fun k => match x_init (cfuel Gen_Bindings.T) Gen_Bindings.T (c_name k) [], init_lits Gen_Bindings.T (c_name k) with
+                    | Some a, Some b => fields_eqb a (map (fun nv => (fst nv, inject XF dec_norm (snd nv))) b)
+                    | _, _ => false end) Gen_Bindings.T = true.
+Proof. vm_compute. reflexivity. Qed.
+"""
+
+
+def glue_facts(ck):
+    """root element mapping of the parser and root name used by the writer (ast, fail closed)"""
+    import ast
+    import os
+    from lib.vcommon import REPO
+    facts = {}
+    t = ast.parse(open(os.path.join(REPO, "neuroml", "nml", "nml.py")).read())
+    for n in t.body:
+        if isinstance(n, ast.Assign) and getattr(n.targets[0], "id", "") == "GDSClassesMapping" and isinstance(n.value, ast.Dict):
+            facts["root_map"] = {ast.literal_eval(k): ast.unparse(v) for k, v in zip(n.value.keys, n.value.values)}
+    w = ast.parse(open(os.path.join(REPO, "neuroml", "writers.py")).read())
+    for n in ast.walk(w):
+        if isinstance(n, ast.Call) and ast.unparse(n.func).endswith(".export"):
+            for kw in n.keywords:
+                if kw.arg == "name_" and isinstance(kw.value, ast.Constant):
+                    facts.setdefault("writer_root", kw.value.value)
+    ck.oblige("glue:parser-root-map neuroml->NeuroMLDocument", facts.get("root_map", {}).get("neuroml") == "NeuroMLDocument",
+              str(facts.get("root_map")), kind="instance")
+    ck.oblige("glue:writer-root-name neuroml", facts.get("writer_root") == "neuroml", str(facts.get("writer_root")), kind="instance")
+    return facts
+
+
+def directed_search(ck, T, diag, prop="C01"):
+    """rt_wf is false: instantiate exactly the classes/members the diagnostic names on the real code"""
+    gen = gdsgen.Gen(T, ck.rng)
+    order = {c: T.field_order(c) for c in T.order}
+    cases = []
+    for c, items in diag:
+        if c not in T.C:
+            continue
+        for label, member in items:
+            for others in ("none", "all"):
+                try:
+                    cases.append({"tag": "probe", "tree": gen.focus_tree(c, member, others), "why": [c, label, member]})
+                except Exception as e:  # noqa
+                    ck.tally("directed-generator-failed")
+        for j in range(6):
+            cases.append({"tag": "probe", "tree": gen.tree(c, 2, full=(j == 0)), "why": [c, "random", ""]})
+    if not cases:
+        return 0
+    res = ck.impl("gds_impl.py", {"order": order, "cases": cases}, timeout=900)["results"]
+    found = 0
+    for case, r in zip(cases, res):
+        c = case["tree"]["cls"]
+        bad = None
+        if "obj_err" in r:
+            continue
+        if "xml_err" in r or "back_err" in r:
+            bad = "round trip raises: %s" % (r.get("xml_err") or r.get("back_err"))
+        elif r["back"] != r["obj"]:
+            diff = [(a[0], a[1], b[1]) for a, b in zip(r["obj"]["fields"], r["back"]["fields"]) if a != b][:3]
+            bad = "XML write->read changes the tree of a %s: %s" % (c, json.dumps(diff)[:300])
+        if bad:
+            found += 1
+            ck.witness("%s:%s:%s:%s" % (prop, c, case["why"][1], case["why"][2]), bad, input=case, expected=r.get("obj"),
+                       observed=r.get("back"), broken="Inst_C01.v:wf_ok")
+    return found
+
+
+def wf_obligations(ck, T, prop="C01"):
+    inst = ck.gen_v("Inst_C01.v", INST)
+    ok, out = ck.compile_obligations(inst, kind="instance")
+    if ok:
+        return True
+    okd, res, outd = ck.coq_eval("Diag_C01.v", HEADER.replace("Model.GdsExec", "Model.GdsWf") +
+                                 "Eval vm_compute in (rt_diag Gen_Bindings.T).\n")
+    import re
+    diag = []
+    if okd and res:
+        # ("Cls", ("label", "member") :: ... :: nil) :: ...
+        for m in re.finditer(r'\("(\w+)",\s*\[((?:\("[\w-]+",\s*"\w*"\);?\s*)*)\]\)', res[0]):
+            items = re.findall(r'\("([\w-]+)",\s*"(\w*)"\)', m.group(2))
+            diag.append((m.group(1), items))
+    ck.extra["rt_wf_diagnostic"] = diag
+    directed_search(ck, T, diag, prop)
+    return False
 
 
 def run(ck):
@@ -98,4 +225,10 @@ def run(ck):
     if not bindings.gen_bindings(ck, tab):
         return
     T = bindings.Tables(tab)
+    glue_facts(ck)
+    if wf_obligations(ck, T):
+        ck.compile_props()
+    else:
+        ck.oblige("Props_C01.v:C01_roundtrip", False, "instance obligation wf_ok failed", kind="theorem")
     run_correspondence(ck, tab, T, per_class=ck.n(3, 12), depth=ck.n(2, 4))
+    run_documents(ck, T, n=ck.n(6, 40), depth=ck.n(3, 4))
